@@ -83,7 +83,7 @@ def _ver(ch, kind):
 
 
 def generate(ch, max_pkgs=4, max_algs=3, max_total=8, feedback=True, events=False,
-             kinds=KINDS, max_svs=2, max_vals=2, max_inputs=3):
+             kinds=KINDS, max_svs=2, max_vals=2, max_inputs=3, self_refs=False):
     """draw an acyclic engine spec from the chooser"""
     npkg = 1 + ch.choose('gen.npkg', max_pkgs)
     pool = list(PKG_NAMES)
@@ -132,6 +132,11 @@ def generate(ch, max_pkgs=4, max_algs=3, max_total=8, feedback=True, events=Fals
                     ref = (y.full, 'val', ysv[0], ysv[2][ch.choose('gen.inval', len(ysv[2]))][0])
                 if ref not in inputs:
                     inputs.append(ref)
+        if self_refs and kind == 'task' and inputs and ch.flip('gen.selfref', 1, 3):
+            # an algorithm that also reads one of its own values from its last run (Test/ae/feedback's Control does):
+            # no ordering edge, no trigger - an algorithm neither waits for nor re-runs because of itself
+            ysv = svs[ch.choose('gen.selfsv', len(svs))]
+            inputs.append((f'{p}.{an}', 'val', ysv[0], ysv[2][ch.choose('gen.selfval', len(ysv[2]))][0]))
         algs.append(AlgSpec(p, an, kind, _ver(ch, 'gen.aver'), svs, inputs,
                             where=['cluster', 'cluster', 'auto', 'auto', 'cloud'][ch.choose('gen.where', 5)]))
     if feedback:
